@@ -5,6 +5,7 @@ import (
 	"errors"
 	"fmt"
 	"maps"
+	"slices"
 	"sort"
 	"sync"
 
@@ -54,6 +55,13 @@ func pathConfCanBeUpdated(oldPathConf *conf.Path, newPathConf *conf.Path) bool {
 	clone.RPICameraBitrate = newPathConf.RPICameraBitrate
 
 	return newPathConf.Equal(clone)
+}
+
+func captureGroups(matches []string) []string {
+	if len(matches) > 1 {
+		return matches[1:]
+	}
+	return nil
 }
 
 type pathSetHLSServerRes struct {
@@ -245,7 +253,7 @@ func (pm *pathManager) doReloadConf(newPaths map[string]*conf.Path) {
 
 	// process existing paths
 	for pathName, pa := range pm.paths {
-		newPathConf, _, err := conf.FindPathConf(newPaths, pathName)
+		newPathConf, newMatches, err := conf.FindPathConf(newPaths, pathName)
 		// path does not have a config anymore: delete it
 		if err != nil {
 			pm.doClosePath(pa)
@@ -254,9 +262,12 @@ func (pm *pathManager) doReloadConf(newPaths map[string]*conf.Path) {
 
 		// path now belongs to a different config
 		if newPathConf.Name != pa.confName {
-			// path config can be hot reloaded
+			// path config can be hot reloaded.
+			// capture groups must be the same too, since they are used
+			// by sources, forwarders and hooks and cannot be changed on the fly.
 			oldPathConf := pm.pathConfs[pa.confName]
-			if pathConfCanBeUpdated(oldPathConf, newPathConf) {
+			if pathConfCanBeUpdated(oldPathConf, newPathConf) &&
+				slices.Equal(captureGroups(pa.matches), captureGroups(newMatches)) {
 				pa.confName = newPathConf.Name
 				go pa.reloadConf(newPathConf)
 				continue
